@@ -45,6 +45,7 @@ type c9Track struct {
 	name  string
 	lang  string
 	def   bool
+	bf    bool // video with frame reordering (e2e_bf.go): the `w` ops carry bf=<pattern index> and the extracted dts=
 	track *gohlslib.Track
 	aus   []*c9AU // every AU handed to Write*, in writing order
 }
@@ -265,7 +266,7 @@ func (r *c9Runner) Step(line string) []string {
 		}
 		return nil
 	case "track":
-		t := &c9Track{codec: a["codec"], rate: int(atoi64(a["rate"])), sr: int(atoi64(a["sr"])), name: a["name"], lang: a["lang"], def: a["def"] == "1"}
+		t := &c9Track{codec: a["codec"], rate: int(atoi64(a["rate"])), sr: int(atoi64(a["sr"])), name: a["name"], lang: a["lang"], def: a["def"] == "1", bf: a["bf"] == "1"}
 		if t.name == "-" {
 			t.name = ""
 		}
@@ -304,7 +305,7 @@ func (r *c9Runner) begin() string {
 		default:
 			return "bad-op"
 		}
-		t.track = &gohlslib.Track{Codec: c9CodecOf(t.codec, t.sr), ClockRate: t.rate, Name: t.name, Language: t.lang, IsDefault: t.def}
+		t.track = &gohlslib.Track{Codec: c9CodecOfBf(t.codec, t.sr, t.bf), ClockRate: t.rate, Name: t.name, Language: t.lang, IsDefault: t.def}
 		m.Tracks = append(m.Tracks, t.track)
 	}
 	if r.useDir {
@@ -367,8 +368,13 @@ func (r *c9Runner) write(a map[string]string) string {
 		return "bad-op"
 	}
 
-	// real-time pacing on the case's time axis
-	msec := ratOf(pts, int64(t.rate))
+	dts := pts
+	if _, ok := a["dts"]; ok && isVideoCodec(t.codec) {
+		dts = atoi64(a["dts"]) // what the muxer's DTS extractor will choose (computed by the generator's own instance)
+	}
+	// real-time pacing on the case's time axis (decode times)
+	psecAll := ratOf(pts, int64(t.rate))
+	msec := ratOf(dts, int64(t.rate))
 	now := time.Now()
 	if r.wIdx < r.skip {
 		// unpaced
@@ -407,13 +413,16 @@ func (r *c9Runner) write(a map[string]string) string {
 	r.startClients()
 
 	units := c9UnitBytes(t.codec, r.variant, ra, pic, par, pays, fill, tocs)
+	if t.bf {
+		units = [][][]byte{bfBuildAUFor(t.codec, par, int(atoi64(a["bf"])), int(pays[0]))}
+	}
 	var recs []*c9AU
 	r.mu.Lock()
 	off := new(big.Rat)
 	for j, p := range pays {
 		u := &c9AU{track: ti, seq: len(t.aus), pay: int(p), call: r.wIdx, j: j, ra: ra, pic: pic || ra || t.codec != "h264", bytes: units[j], segIdx: -1}
 		u.tsec = new(big.Rat).Add(msec, off)
-		u.psec = u.tsec
+		u.psec = new(big.Rat).Add(psecAll, off)
 		offNs, _ := new(big.Rat).Mul(off, ratOf(1000000000, 1)).Float64()
 		u.ntpNs = ntpMs*1000000 + int64(offNs)
 		switch t.codec {
